@@ -11,7 +11,7 @@ CAST_KINDS = ('CXXStaticCastExpr', 'CStyleCastExpr', 'CXXFunctionalCastExpr', 'C
 PURE_CALLS = {'header', 'size', 'state', 'empty', 'zero', 'begin', 'end', 'data', 'min', 'max', 'usec', 'connection_event_counter', 'negotiated_mtu', 'client_mtu', 'server_mtu',
               'is_random', 'is_encrypted', 'read_16bit', 'read_32bit', 'read_handle', 'bits', 'remote_address', 'local_address', 'client_configurations', 'security_attributes',
               'first_index_by_handle', 'handle_by_index', 'index_by_handle', 'strlen', 'sizeof', 'get_io_capabilities', 'has_oob_data_for_remote_device', 'pdu_length', 'data_channel_pdu_memory_size',
-              'first_channel_selected', 'is_in_white_list', 'peripheral_latency_feature', 'more_than_one', 'next_end', 'flags', 'at', 'lesc_pairing_algorithm', 'legacy_pairing_algorithm', 'first_channel_index'}
+              'first_channel_selected', 'time_since_last_event', 'current_channel_index', 'is_in_white_list', 'peripheral_latency_feature', 'more_than_one', 'next_end', 'flags', 'at', 'lesc_pairing_algorithm', 'legacy_pairing_algorithm', 'first_channel_index'}
 _LOCALS = {}
 
 
